@@ -55,6 +55,8 @@ def prove(run):
                 def ops():
                     # (name, function under contract, callable on a copy) -- each must leave the represented object unchanged
                     yield "canonicalise", "MatrixProduct.canonicalise", lambda x: _from_end(x).canonicalise()
+                    yield "canonicalise_from_any_centre", "MatrixProduct.canonicalise", lambda x: x.canonicalise()
+                    yield "canonicalise_from_any_centre_to_stop_1", "MatrixProduct.canonicalise", lambda x: x.canonicalise(stop_idx=1)
                     yield "canonicalise_twice", "MatrixProduct.canonicalise", lambda x: _from_end(x).canonicalise().canonicalise()
                     yield "ensure_left_canonical", "MatrixProduct.ensure_left_canonical", lambda x: x.ensure_left_canonical()
                     yield "ensure_right_canonical", "MatrixProduct.ensure_right_canonical", lambda x: x.ensure_right_canonical()
